@@ -13,6 +13,7 @@ CONSTANTS
   FixShort = FALSE
   FixNilReq = FALSE
   FixBadReq = FALSE
+  FixBadKey = FALSE
 
 INVARIANTS TypeOK OwnIndexOnly CorrectModuloKnown EmitDone
 CHECK_DEADLOCK FALSE
